@@ -8,7 +8,7 @@ from . import manifests as M
 
 PID = 'C04'
 PINS = C.load_pins('C04')
-PROOF_FILES = ['Proofs/CstProofs.v', 'Proofs/JsonWalkProofs.v', 'Proofs/TomlWalkProofs.v', 'Proofs/PyWalkProofs.v', 'Proofs/YamlWalkProofs.v', 'Proofs/GoModProofs.v', 'Proofs/ParserPins.v', 'Props/C04.v']
+PROOF_FILES = ['Proofs/CstProofs.v', 'Proofs/JsonWalkProofs.v', 'Proofs/TomlWalkProofs.v', 'Proofs/PyWalkProofs.v', 'Proofs/YamlWalkProofs.v', 'Proofs/GhaWalkProofs.v', 'Proofs/GoModProofs.v', 'Proofs/ParserPins.v', 'Props/C04.v']
 
 # known-finding id per deviation class (KNOWN_FINDINGS.json)
 CLASS_FINDING = {
